@@ -17,18 +17,19 @@ def name : Tree → Bytes | node n _ _ => n
 def total : Tree → Q | node _ t _ => t
 def children : Tree → List Tree | node _ _ c => c
 
-/-- `parent.Add(child)` along a path: add `v` to the child called `n` (creating it in sorted
-    position) and continue below it with the rest of the path.  Recursion is on the path. -/
+/-- `parent.Add(child)`: add `v` to the child called `n` (creating it in sorted position), and let `sub` continue
+    below it with the rest of the path -/
+def ins (sub : List Tree → List Tree) (n : Bytes) (v : Q) : List Tree → List Tree
+  | [] => [node n v (sub [])]
+  | c :: cs =>
+    if c.name == n then node c.name (c.total + v) (sub c.children) :: cs
+    else if Bytes.le n c.name then node n v (sub []) :: c :: cs
+    else c :: ins sub n v cs
+
+/-- `AddDeep` along a path of names: the value is added at every node of the path.  Recursion is on the path. -/
 def addPath : List Bytes → Q → List Tree → List Tree
   | [], _, cs => cs
-  | n :: ns, v, cs => ins n ns v cs
-where
-  ins (n : Bytes) (ns : List Bytes) (v : Q) : List Tree → List Tree
-    | [] => [node n v (addPath ns v [])]
-    | c :: cs =>
-      if c.name == n then node c.name (c.total + v) (addPath ns v c.children) :: cs
-      else if Bytes.le n c.name then node n v (addPath ns v []) :: c :: cs
-      else c :: ins n ns v cs
+  | n :: ns, v, cs => ins (addPath ns v) n v cs
 
 /-- `DefaultCategorySeparator` (one byte; `Props/C03` checks that the generated constant is) -/
 def sep : UInt8 := match Facts.categorySeparator with
